@@ -64,6 +64,12 @@ def gen(seed, tier):
         if r.random() < 0.35:
             o["M"] = r.choice(["17", "4+5", "99"])
         cases.append(H("C16-h%d" % i, o, [seg(0, stream(g, r.randint(1, 30)))]))
+    # more frames of one format than fit 16 bits: the count stays exact (implementation only: the oracle reads the last line)
+    if True:
+        f17 = g.f_df17(r.choice(ICAOS), g.me_ident())
+        nbig = 65540 + r.randint(0, 40)
+        lines = [f17] * nbig + [g.f_short(4, r.choice(ICAOS)), g.f_df11(r.choice(ICAOS))]
+        cases.append(("C16-big!nomodel", "C", opts_str({"i": "x", "u": -1, "o": "x", "c": 1}), seg(0, lines)))
     # frames the filter rejects do not drive the expiry sweep either: --delete-after 0 makes every sweep visible
     for i in range(10 if tier == "quick" else 100):
         o = {"d": 0, "f": "+".join(str(x) for x in r.sample([4, 5, 11, 17, 20, 21], r.randint(1, 3)))}
@@ -134,3 +140,7 @@ CLAIM = {
     "note": "Counters live for one read_lines call. Printing of the counter line is modelled in Model/Display.v and compared with CLI stdout.",
     "technique": "Coq proof by induction over arbitrary line lists (multiset-count invariant); CLI/reader differential runs + python oracle",
 }
+
+
+def skip_case(parts, impl, model):
+    return parts[0].endswith("!nomodel")
